@@ -71,7 +71,8 @@ package db
 //@ (declare-fun autoindex_name (Str (_ BitVec 64)) Str)
 
 // addIndex: adds the index unless an index with the same column list exists or the list is the
-// WITHOUT ROWID primary key; says whether it added; existing entries are untouched.
+// WITHOUT ROWID primary key; says whether it added; existing entries are untouched. A PRIMARY KEY that
+// duplicates an existing index makes that index the primary-key index (PrimaryKey names it).
 //@ func (*db.Schema).addIndex
 //@   props C10 C05
 //@   modifies alloc M:S_db_SchemaIndex db.Schema.Indexes db.Schema.PrimaryKey created
@@ -82,6 +83,8 @@ package db
 //@   ensures [rule] result <==> (deepid(old(st.PK)) != deepid(cols) && (forall k int :: 0 <= k && k < old(len(st.Indexes)) ==> deepid(old(st.Indexes[k].Columns)) != deepid(cols)))
 //@   ensures [added] result ==> len(st.Indexes) == old(len(st.Indexes)) + 1 && st.Indexes[old(len(st.Indexes))].Index == name && st.Indexes[old(len(st.Indexes))].Columns == cols && (pk ==> st.PrimaryKey == name)
 //@   ensures [same] !result ==> st.Indexes == old(st.Indexes)
+//@   ensures [pkdup] pk && !result && deepid(old(st.PK)) != deepid(cols) ==> (exists k int := $i :: 0 <= k && k < old(len(st.Indexes)) && st.PrimaryKey == old(st.Indexes[k].Index) && deepid(old(st.Indexes[k].Columns)) == deepid(cols))
+//@   ensures [pkkeep] !pk ==> st.PrimaryKey == old(st.PrimaryKey)
 //@   ensures [kept] forall k int :: 0 <= k && k < old(len(st.Indexes)) ==> st.Indexes[k] == old(st.Indexes[k])
 //@   loop 1 invariant forall k int :: 0 <= k && k < $i ==> deepid(st.Indexes[k].Columns) != deepid(cols)
 
